@@ -2,6 +2,7 @@
 
    case <id>
    dev tiff|json
+   file <path-hex> <hex | ->                 (a file that already exists, with these contents)
    fix <d6> <d25> <d26>                      (optional, default 1 1 1 = the repaired code)
    set <uri-hex> <md: - | e | hex> <sx_p> <sx_q> <sy_p> <sy_q> [ignored...]
    start
@@ -90,6 +91,9 @@ let () =
        | [] -> ()
        | ["case"; id] -> w := (dev_init false, []); fx := all_fixes; Printf.printf "case %s\n" id
        | ["dev"; k] -> w := (dev_init (k = "json"), snd !w)
+       | ["file"; path; data] ->
+         (* a file that exists before the device is used (left by an earlier acquisition / another process) *)
+         w := (fst !w, fs_put (snd !w) (bytes_of_hex path) (if data = "-" then [] else bytes_of_hex data))
        | ["fix"; a; b; c] -> fx := { fix_d6 = a <> "0"; fix_d25 = b <> "0"; fix_d26 = c <> "0" }
        | "set" :: uri :: md :: sxp :: sxq :: syp :: syq :: _ ->
          let md = if md = "-" then None else if md = "e" then Some [] else Some (bytes_of_hex md) in
